@@ -611,7 +611,7 @@ Proof. vm_compute. reflexivity. Qed.
 Ltac dpos p := try reflexivity; try congruence; let q := fresh "q" in destruct p as [q|q|]; [dpos q|dpos q|try reflexivity; try congruence].
 Lemma no_guarded_guard fs get : no_guarded fs = true -> ext_guard xguard fs get = true.
 Proof.
-  unfold no_guarded, ext_guard. intros H. apply forallb_forall. intros f Hf. destruct (f_de f) as [| | | | | | | | |i|] eqn:Ed; try reflexivity.
+  unfold no_guarded, ext_guard. intros H. apply forallb_forall. intros f Hf. destruct (f_de f) as [| | | |b|b| | | | |i|] eqn:Ed; try reflexivity.
   destruct (get (f_key f)); [|reflexivity]. rewrite forallb_forall in H. specialize (H i (ext_ids_in _ _ _ Hf Ed)).
   apply negb_true_iff in H. apply orb_false_iff in H. destruct H as [H H12]. apply orb_false_iff in H. destruct H as [H7 H11].
   apply N.eqb_neq in H7. apply N.eqb_neq in H11. apply N.eqb_neq in H12. unfold xguard.
